@@ -112,6 +112,22 @@ CHECKS = {
         "directions, labels, index tables, values); aligning with align_axes, fusing the contracted axes on both operands (insert and concat) and contracting the single fused pair (both modes) must "
         "give the same value; fusing an operand's free legs beforehand must give a result on which that leg is still fused and which equals the direct result after unfusing.",
    note="Trusted: integer tags + harness embedding; blockwise contraction as the differential reference (its absolute correctness is C02/C03's subject)."),
+ "C04": dict(engine="E-bfs", design_ref="DESIGN.md 5 C04",
+   technique="explicit-state exploration of all contraction routes of small networks on the real code (states = sets of partially contracted tensors, deduplicated by contraction tree) used as a confluence check, plus the one-shot R-graded network value as absolute reference; exhaustive label-algebra sub-check",
+   text="For every network of 2-3 fermionic tensors (pairs, chains, triangles, with 0-2 dangling legs; 4-chains / 4-cycles sliced in quick) over every bond orientation, dangling direction, even/odd "
+        "charge assignment, assignment of distinct labels to the odd tensors in every order, two index tables, sparsity probes and pending signs, every contraction route is executed: every pair "
+        "order, both operand orders, every listing order of the shared legs, fused and blockwise modes, fermionic pre-transposes, all-at-once versus one-leg-then-einsum-trace. All terminal values "
+        "(after a fermionic transpose to a canonical leg order) must be exactly equal, carry equal labels, charge and directions, and equal the word-model evaluation of the whole network. "
+        "Separately every pair of label tuples (lengths 0-3, labels 1-4, both directions) is driven through the public outer product against the word sign, and the label order is checked to be a strict total order.",
+   note="Trusted: R-graded network evaluation; integer tags. With conjugate labels on the two operands the remaining labels are compared in the fully annihilated normal form (the library annihilates a pair only when it becomes adjacent)."),
+ "C10": dict(engine="E-enum + E-bfs", design_ref="DESIGN.md 5 C10",
+   technique="exhaustive enumeration of fermionic arrays x phase_dual for the adjoint laws (exact Gaussian-integer arithmetic, R-graded bra as reference) and route exploration of doubled bra-ket networks on the real code",
+   text="For every fermionic array of the bounded universe (n<=3, all directions, even / odd with label, sparsity, pending signs, complex and real tags) and both values of phase_dual: conj equals the "
+        "R-graded bra; <conj x, x>, <x, conj x> and the dagger forms with reversed axes equal the harness-computed squared norm whenever all indices are kets or phase_dual is set; conj.conj and "
+        "dagger.dagger are the identity; dagger(pd) equals conj(pd) followed by the fermionic reversal. For 2-3 tensor networks with dangling legs (every bond orientation, dangling direction, parity / label "
+        "assignment) the network is conjugated tensor by tensor with defaults, the bra-like dangling legs are phase-flipped, and <psi|psi> is contracted along every route (2 tensors) / every linear order "
+        "from every starting pair plus ket-net x bra-net joins (3 tensors): the value must equal the squared norm of the contracted ket network and no label may remain.",
+   note="Trusted: R-graded conj; exact integer arithmetic for norms. The norm law is demanded as stated (all kets, or phase_dual=True)."),
 }
 
 _ALL = ["C%02d" % i for i in range(1, 21)]
